@@ -494,4 +494,150 @@ theorem cvt_f32_spec (n : Bool) (q : ℚ) (hpos : 0 < q) :
       have hge' : rv Dasp.f32 (- -q) ≥ pow2 (Dasp.f32.emax + 1) := by rw [neg_neg]; exact hge
       simp only [cvt, hne, if_false, if_true, FFmt.fmt, hov, round, hn, roundPos_eq _ (- -q) hne', hge']
 
+/-! ## `mul_amp(1.0)` when the integer format is wider than the mantissa -/
+
+/-- multiplying a representable value by 1.0 is exact -/
+theorem mul_one_rep (F : Fmt2) (n : Bool) (q : ℚ) (hq : q = 0 ∨ (0 < q ∧ onGrid F q ∧ q < pow2 (F.emax + 1))) :
+    mul F (.fin n q) (.fin false 1) = .fin n q := by
+  rcases hq with h0 | ⟨hpos, hg, hlt⟩
+  · subst h0; cases n <;> simp [mul, round_zero]
+  · have hid := rv_id F hg
+    cases n with
+    | false =>
+      simp only [mul, mul_one, Bool.false_bne, Bool.false_eq_true, if_false]
+      rw [round_of_pos F false hpos (by rw [hid]; exact hlt), hid]
+    | true =>
+      simp only [mul, mul_one, Bool.true_bne, Bool.not_false, if_true]
+      rw [round_of_neg F true (by linarith) (by rw [neg_neg, hid]; exact hlt), neg_neg, hid]
+
+
+
+theorem truncQ_err (z : ℚ) : |((truncQ z : ℤ) : ℚ) - z| ≤ 1 := by
+  by_cases h : 0 ≤ z
+  · rw [truncQ_nonneg h, abs_le]
+    constructor <;> linarith [Int.floor_le z, Int.lt_floor_add_one z]
+  · have h' : z < 0 := not_le.mp h
+    rw [truncQ_neg h', abs_le]; push_cast
+    constructor <;> linarith [Int.floor_le (-z), Int.lt_floor_add_one (-z)]
+
+/-- clamping into a range that contains `a` never moves a value away from `a` -/
+theorem clamp_near (lo hi v a : ℤ) (h1 : lo ≤ a) (h2 : a ≤ hi) :
+    |(if v < lo then lo else if v > hi then hi else v) - a| ≤ |v - a| := by
+  split
+  · rw [abs_of_nonpos (by omega), abs_of_nonpos (by omega)]; omega
+  · split
+    · rw [abs_of_nonneg (by omega), abs_of_nonneg (by omega)]; omega
+    · exact le_refl _
+
+theorem rv_pos (F : Fmt2) (hp : 1 ≤ F.prec) {q : ℚ} (hq : 0 < q) (he : F.emin ≤ ilog2 q) : 0 < rv F q := by
+  have h0 : gridExp F q ≤ ilog2 q := by unfold gridExp; omega
+  exact lt_of_lt_of_le (pow2_pos _) (pow2_le_rv F h0 (ilog2_spec q hq).1)
+
+/-- value → float → ×1.0 → ×2^k → integer: within `2^(k+1−prec)` of the value, and in range -/
+theorem i2f_mul1_f2i_near (F : Fmt2) (hp : 1 ≤ F.prec) (a : ℤ) (k : ℕ) (t : ITy)
+    (hk : (k : ℤ) ≤ F.emax) (hemin : F.emin ≤ -(k : ℤ)) (hemin2 : F.emin ≤ 1 - (F.prec : ℤ)) (hpk : F.prec ≤ k)
+    (hlo : t.lo = -(2 : ℤ) ^ k) (hhi : t.hi = 2 ^ k - 1) (ha1 : -(2 : ℤ) ^ k ≤ a) (ha2 : a ≤ 2 ^ k - 1) :
+    ∃ r : ℤ, toInt t (mul F (mul F (specI2F F a k) (.fin false 1)) (.fin false ((2 : ℚ) ^ k))) = r ∧
+      t.lo ≤ r ∧ r ≤ t.hi ∧ |r - a| ≤ 2 ^ (k + 1 - F.prec) := by
+  have h2pos : (0 : ℤ) < 2 ^ k := by positivity
+  have hk0 : (0 : ℚ) < pow2 k := pow2_pos _
+  have h2k : ((2 : ℚ) ^ k) = pow2 k := (pow2_nat k).symm
+  have hE : (1 : ℤ) ≤ 2 ^ (k + 1 - F.prec) := by exact_mod_cast Nat.one_le_two_pow
+  by_cases h0 : a = 0
+  · subst h0
+    refine ⟨0, ?_, by rw [hlo]; omega, by rw [hhi]; omega, by simpa using le_trans (by norm_num) hE⟩
+    have h1 : mul F (specI2F F 0 k) (.fin false 1) = .fin false 0 := by simp [specI2F, mul, round_zero]
+    rw [h1]
+    have h2 : mul F (.fin false 0) (.fin false ((2 : ℚ) ^ k)) = .fin false 0 := by simp [mul, round_zero]
+    rw [h2]
+    have hz : truncQ (sval false 0) = 0 := by simp [sval, truncQ, rat_floor_eq]
+    have := toInt_fin_inrange t false 0 (by rw [hz, hlo]; omega) (by rw [hz, hhi]; omega)
+    rw [this, hz]
+  -- a ≠ 0
+  have hb : |a| ≤ 2 ^ k := abs_le.mpr ⟨by omega, by omega⟩
+  have hab := abs_cast_le_pow2 hb
+  have hapos : 0 < |(a : ℚ)| := abs_pos.mpr (by exact_mod_cast h0)
+  set q := |(a : ℚ)| / pow2 k with hq
+  have hqpos : 0 < q := div_pos hapos hk0
+  have hq1 : q ≤ 1 := by rw [hq, div_le_one hk0]; exact hab
+  have hqlo : pow2 (-(k : ℤ)) ≤ q := by
+    have h1 : (1 : ℚ) ≤ |(a : ℚ)| := by
+      have : (1 : ℤ) ≤ |a| := Int.one_le_abs h0
+      have h2 : ((1 : ℤ) : ℚ) ≤ ((|a| : ℤ) : ℚ) := by exact_mod_cast this
+      simpa using h2
+    rw [hq, le_div_iff₀ hk0, ← pow2_add]; simpa [pow2_zero] using h1
+  have hlq : -(k : ℤ) ≤ ilog2 q := le_ilog2_of_pow2_le hqpos hqlo
+  have hlq0 : ilog2 q ≤ 0 := ilog2_le_of_le_pow2 hqpos (by rw [pow2_zero]; exact hq1)
+  set y := rv F q with hy
+  have hypos : 0 < y := rv_pos F hp hqpos (by omega)
+  have hy1 : y ≤ 1 := rv_quot_le_one F hp (by omega) hapos k hab
+  have hyg : onGrid F y := rv_onGrid F hp hqpos
+  have hylt : y < pow2 (F.emax + 1) := lt_of_le_of_lt hy1 (by rw [← pow2_zero]; exact pow2_lt (by omega))
+  -- the float after ×1.0 is unchanged
+  have hs : specI2F F a k = .fin (decide (a < 0)) y := by simp [specI2F, h0, hy, hq]
+  rw [hs, mul_one_rep F _ y (Or.inr ⟨hypos, hyg, hylt⟩)]
+  -- ×2^k is exact
+  set n := decide (a < 0) with hn
+  have hex : rv F (y * 2 ^ k) = y * 2 ^ k := by rw [h2k]; exact mul_pow2_exact F hypos hyg k (by omega)
+  have hprod : 0 < y * 2 ^ k := mul_pos hypos (by positivity)
+  have hno : rv F (y * 2 ^ k) < pow2 (F.emax + 1) := by
+    rw [hex, h2k]
+    have : y * pow2 k ≤ pow2 k := by nlinarith
+    exact lt_of_le_of_lt this (pow2_lt (by omega))
+  have hmul : mul F (.fin n y) (.fin false ((2 : ℚ) ^ k)) = .fin n (y * 2 ^ k) := by
+    cases n with
+    | false => simp only [mul, Bool.false_bne, Bool.false_eq_true, if_false]; rw [round_of_pos F false hprod hno, hex]
+    | true =>
+      simp only [mul, Bool.true_bne, Bool.not_false, if_true]
+      rw [round_of_neg F true (by linarith) (by rw [neg_neg]; exact hno), neg_neg, hex]
+  rw [hmul]
+  -- error of the scaled rounded value
+  have herr : |sval n (y * 2 ^ k) - (a : ℚ)| ≤ (2 : ℚ) ^ (k + 1 - F.prec) - 1 := by
+    have hge : gridExp F q ≤ 1 - (F.prec : ℤ) := by unfold gridExp; omega
+    have h1 : |y - q| ≤ pow2 (1 - (F.prec : ℤ)) / 2 := le_trans (rv_err F q) (by
+      have := pow2_mono hge; linarith)
+    have hsv : sval n (y * 2 ^ k) - (a : ℚ) = (if n then -1 else 1) * ((y - q) * pow2 k) := by
+      have haq : (a : ℚ) = (if n then -1 else 1) * (q * pow2 k) := by
+        rw [hq, div_mul_cancel₀ _ (ne_of_gt hk0)]
+        by_cases hneg : a < 0
+        · simp [hn, hneg, abs_of_neg (show (a : ℚ) < 0 by exact_mod_cast hneg)]
+        · simp [hn, hneg, abs_of_nonneg (show (0 : ℚ) ≤ a by exact_mod_cast (not_lt.mp hneg))]
+      rw [haq, h2k]; cases n <;> simp [sval] <;> ring
+    rw [hsv, abs_mul, abs_mul, abs_of_pos hk0]
+    have hsgn : |(if n then (-1 : ℚ) else 1)| = 1 := by cases n <;> simp
+    rw [hsgn, one_mul]
+    have h2 : |y - q| * pow2 k ≤ pow2 (1 - (F.prec : ℤ)) / 2 * pow2 k := mul_le_mul_of_nonneg_right h1 (le_of_lt hk0)
+    have h3 : pow2 (1 - (F.prec : ℤ)) / 2 * pow2 k = pow2 ((k : ℤ) - F.prec) := by
+      have : pow2 (1 - (F.prec : ℤ)) = 2 * pow2 (-(F.prec : ℤ)) := by
+        rw [show (1 - (F.prec : ℤ)) = -(F.prec : ℤ) + 1 by ring, pow2_succ]
+      rw [this, show (k : ℤ) - F.prec = -(F.prec : ℤ) + k by ring, pow2_add]; ring
+    have h4 : pow2 ((k : ℤ) - F.prec) ≤ (2 : ℚ) ^ (k + 1 - F.prec) - 1 := by
+      have e : ((k + 1 - F.prec : ℕ) : ℤ) = ((k : ℤ) - F.prec) + 1 := by omega
+      rw [← pow2_nat, e, pow2_succ]
+      have : (1 : ℚ) ≤ pow2 ((k : ℤ) - F.prec) := by
+        rw [← pow2_zero]; exact pow2_mono (by omega)
+      linarith
+    linarith
+  -- truncate, clamp
+  set z := sval n (y * 2 ^ k) with hz
+  have hT : |((truncQ z : ℤ) : ℚ) - (a : ℚ)| ≤ (2 : ℚ) ^ (k + 1 - F.prec) := by
+    have h1 := truncQ_err z
+    have h2 : ((truncQ z : ℤ) : ℚ) - (a : ℚ) = (((truncQ z : ℤ) : ℚ) - z) + (z - a) := by ring
+    rw [h2]; exact le_trans (abs_add_le _ _) (by linarith)
+  have hTz : |truncQ z - a| ≤ 2 ^ (k + 1 - F.prec) := by
+    have : ((|truncQ z - a| : ℤ) : ℚ) ≤ (((2 : ℤ) ^ (k + 1 - F.prec) : ℤ) : ℚ) := by push_cast; exact hT
+    exact_mod_cast this
+  have htoInt : toInt t (.fin n (y * 2 ^ k)) = (if truncQ z < t.lo then t.lo else if truncQ z > t.hi then t.hi else truncQ z) := by
+    simp only [toInt, hz, sval]
+  have hlh : t.lo ≤ t.hi := by rw [hlo, hhi]; omega
+  refine ⟨toInt t (.fin n (y * 2 ^ k)), rfl, ?_, ?_, ?_⟩
+  · rw [htoInt]; split
+    · exact le_refl _
+    · split <;> omega
+  · rw [htoInt]; split
+    · exact hlh
+    · split <;> omega
+  · have hc := clamp_near t.lo t.hi (truncQ z) a (by rw [hlo]; exact ha1) (by rw [hhi]; exact ha2)
+    rw [htoInt]; exact le_trans hc hTz
+
 end Dasp
